@@ -78,6 +78,32 @@ def oor(ctx: Ctx, rep: Report) -> None:
                 'reorder it)',
                 key='reversed-insert',
             )
+            # the same index is used for every insertion: a negative one
+            # is relative to a circuit that grows with each of them
+            neg = any(
+                isinstance(k, ast.Compare) and isinstance(k.left, ast.Name)
+                and k.left.id == idx and any(isinstance(
+                    o, (ast.Lt, ast.LtE)) for o in k.ops)
+                and any(
+                    (isinstance(c, ast.Constant) and c.value == 0)
+                    or isinstance(c, ast.UnaryOp) for c in k.comparators)
+                for k in ast.walk(f.node)
+            )
+            n += 1
+            rep.count()
+            rep.check(
+                neg, R, f'Circuit.{f.name}:negative-index', f.path,
+                node.lineno,
+                f'a negative `{idx}` is normalised before the repeated '
+                'insertion',
+                f'Circuit.{f.name} inserts a sequence at the one index '
+                f'`{idx}` and never tests it for being negative: '
+                'Circuit.insert interprets a negative index relative to the '
+                'current number of cycles, which grows with every insertion, '
+                'so the operations of the sequence end up interleaved with '
+                'the existing ones in the wrong order',
+                key='negative-index',
+            )
     # (2) fold reports the requested cycle back
     f = ctx.fn(CIRC + 'fold')
     g = ctx.cfg(f)
@@ -257,6 +283,111 @@ def idlerow(ctx: Ctx, rep: Report) -> None:
             key='vacated',
         )
     rep.floor(R, n, 2, 'methods that vacate grid slots')
+
+
+_POS_MEMO = '''
+class Op:
+    def __init__(self, params):
+        self._params = list(params)
+        self._utry = None
+
+    @property
+    def params(self):
+        return self._params
+
+    def get_unitary(self):
+        if self._utry is None:
+            self._utry = self.gate.get_unitary(self.params)
+        return self._utry
+'''
+
+
+def _memo_alias(cnode: ast.ClassDef) -> list[tuple[str, str, int]]:
+    """(memo field, source field, line) for every `if self.M is None:
+    self.M = f(self.F)` where the class hands out `self._F` itself (a
+    mutable list) through a property."""
+    lists = set()
+    for m in cnode.body:
+        if isinstance(m, ast.FunctionDef) and m.name == '__init__':
+            for s in ast.walk(m):
+                if isinstance(s, (ast.Assign, ast.AnnAssign)):
+                    tg = s.targets[0] if isinstance(s, ast.Assign) else (
+                        s.target)
+                    v = s.value
+                    if isinstance(tg, ast.Attribute) and norm(
+                            tg.value) == 'self' and v is not None and any(
+                                isinstance(c, ast.Call) and norm(
+                                    c.func) == 'list' for c in ast.walk(v)
+                            ) or (isinstance(tg, ast.Attribute) and isinstance(
+                                v, (ast.List, ast.ListComp))):
+                        lists.add(tg.attr)
+    handed = set()
+    for m in cnode.body:
+        if isinstance(m, ast.FunctionDef) and any(
+                norm(d) == 'property' for d in m.decorator_list):
+            for r in ast.walk(m):
+                if isinstance(r, ast.Return) and isinstance(
+                        r.value, ast.Attribute) and norm(
+                            r.value.value) == 'self' and (
+                                r.value.attr in lists):
+                    handed.add(r.value.attr)
+                    handed.add(m.name)
+    out = []
+    for m in cnode.body:
+        if not isinstance(m, ast.FunctionDef):
+            continue
+        for t in ast.walk(m):
+            if not isinstance(t, ast.If):
+                continue
+            tx = norm(t.test)
+            for s in ast.walk(t):
+                if isinstance(s, ast.Assign) and isinstance(
+                        s.targets[0], ast.Attribute) and norm(
+                            s.targets[0].value) == 'self':
+                    memo = s.targets[0].attr
+                    if f'self.{memo} is None' not in tx and (
+                            f'self.{memo} is not None' not in tx):
+                        continue
+                    src = {
+                        x.attr for x in ast.walk(s.value)
+                        if isinstance(x, ast.Attribute)
+                        and norm(x.value) == 'self'
+                    } & handed
+                    for f_ in sorted(src):
+                        out.append((memo, f_, s.lineno))
+    return out
+
+
+def memoalias(ctx: Ctx, rep: Report) -> None:
+    """MEMOALIAS: a value memoised on an object may only depend on state
+    that cannot change behind the object's back.  `Operation.params` hands
+    out the parameter list itself; Circuit.set_param and friends write into
+    it in place.  A matrix cached from `self.params` and invalidated only
+    by the property setter goes stale on the first in-place write."""
+    R = 'MEMOALIAS'
+    if len(_memo_alias(ast.parse(_POS_MEMO).body[0])) != 1:
+        raise AnalysisError('MEMOALIAS no longer matches its positive '
+                            'example')
+    n = 0
+    for c in ctx.index.classes.values():
+        if not c.path.startswith('bqskit/ir/'):
+            continue
+        n += 1
+        for memo, src, line in _memo_alias(c.node):
+            rep.count()
+            rep.fail(
+                R, f'{c.name}.{memo}', c.path, line,
+                f'{c.name} memoises `self.{memo}` from `self.{src}`, a list '
+                'the class hands out by reference: an in-place write '
+                '(Circuit.set_param, freeze_param, op.params[i] = x) does '
+                'not invalidate the cached value, which is then returned '
+                'for the old parameters',
+                key=f'{memo}<-{src}',
+            )
+    rep.count()
+    rep.ok(R, 'bqskit/ir', 'bqskit/ir/operation.py', 1,
+           f'{n} classes under bqskit/ir: no memo of aliased mutable state')
+    rep.floor(R, n, 100, 'classes under bqskit/ir')
 
 
 _POS = '''
